@@ -158,7 +158,7 @@ def run(ctx):
                     taken_int = any(k in INT_INPUTS for k in pins) and a2 not in g.done and \
                         g.irkind.get(a2, ("",))[0] != "x" and _is_int_edge(g, a, i, pins, a2)
                     if taken_int:
-                        out.append((path, "INT"))
+                        out.append((path + [t], "INT"))      # including the word that hands over to the interrupt entry
                         continue
                     if t in onpath:
                         return None
@@ -228,6 +228,14 @@ def run(ctx):
         if isigs:
             chk.ob("length/int-prefix/%#04x" % b, len(isigs) == 1,
                    "the interrupt-taken paths leave the routine after a fixed number of words", where, "%s" % sorted(isigs))
+            # leaving for the interrupt entry instead of fetching costs no bus access of its own: the accesses on the
+            # interrupt-taken path are those of the normal path without its closing opcode fetch
+            if len(sigs) == 1 and len(isigs) == 1:
+                nacc = list(sorted(sigs)[0][1])
+                iacc = list(sorted(isigs)[0][1])
+                chk.ob("length/int-exit-no-bus/%#04x" % b, iacc == nacc[:-1],
+                       "the word that hands over to the interrupt entry touches no bus address (its cost does not depend on "
+                       "register contents)", where, "bus accesses: normal path %s, interrupt-taken path %s" % (nacc, iacc))
         if len(sigs) == 1:
             table["%#04x" % b] = sorted(sigs)[0]
     # two-byte forms
